@@ -9,6 +9,10 @@ package synct
 //	read <kind>    peer sends one frame (ack|ping|settings|wupd) → events
 //	open           NewStream on the client                     → events
 //	done           close the oldest open stream (RST_STREAM)   → events
+//	burst <k>      k (1..8) NewStream calls queued back to back while the loopy writer is busy: the client's
+//	               conn.Write is held, the peer sends a PING (loopy blocks writing the ack), NewStream is
+//	               called k times (all k streams are registered before loopy dequeues the first HEADERS),
+//	               then the write is released - all at one virtual instant                → events
 //
 // events: space separated, in order of occurrence, `-` if none:
 //
@@ -58,7 +62,31 @@ func (l *kaEvlog) take() string {
 	return s
 }
 
+// kaGatedConn lets the harness hold the client's writes (a busy / blocked writer).
+type kaGatedConn struct {
+	net.Conn
+	mu   sync.Mutex
+	gate chan struct{}
+}
+
+func (g *kaGatedConn) setGate(ch chan struct{}) {
+	g.mu.Lock()
+	g.gate = ch
+	g.mu.Unlock()
+}
+
+func (g *kaGatedConn) Write(b []byte) (int, error) {
+	g.mu.Lock()
+	ch := g.gate
+	g.mu.Unlock()
+	if ch != nil {
+		<-ch
+	}
+	return g.Conn.Write(b)
+}
+
 type kaclient struct {
+	gc       *kaGatedConn
 	log      kaEvlog
 	ct       transport.ClientTransport
 	peer     net.Conn
@@ -84,7 +112,9 @@ func (k *kaclient) start(f []string) string {
 	if tm <= 0 || to <= 0 || (f[3] != "0" && f[3] != "1") {
 		return "bad-op"
 	}
-	cli, srv := net.Pipe()
+	rawCli, srv := net.Pipe()
+	cli := &kaGatedConn{Conn: rawCli}
+	k.gc = cli
 	k.peer = srv
 	k.fr = http2.NewFramer(srv, srv)
 	k.peerDone = make(chan struct{})
@@ -196,6 +226,34 @@ func (k *kaclient) Op(f []string) string {
 			return "open-failed " + k.events()
 		}
 		k.streams = append(k.streams, s)
+		return k.events()
+	case "burst":
+		if len(f) != 2 || kaAtoi(f[1]) < 1 || kaAtoi(f[1]) > 8 {
+			return "bad-op"
+		}
+		n := int(kaAtoi(f[1]))
+		gate := make(chan struct{})
+		k.gc.setGate(gate)
+		k.wmu.Lock()
+		werr := k.fr.WritePing(false, [8]byte{2})
+		k.wmu.Unlock()
+		settle() // the client read the PING; loopy is now blocked writing the ack
+		failed := werr != nil
+		for i := 0; i < n; i++ {
+			s, err := k.ct.NewStream(context.Background(), &transport.CallHdr{Host: "pipe", Method: "/s/m"}, nil)
+			if err != nil {
+				failed = true
+				break
+			}
+			k.streams = append(k.streams, s)
+		}
+		settle()
+		k.gc.setGate(nil)
+		close(gate)
+		settle()
+		if failed {
+			return "burst-failed " + k.events()
+		}
 		return k.events()
 	case "done":
 		if len(k.streams) == 0 {
